@@ -331,6 +331,22 @@ impl Token {
     }
 }
 
+#[cfg(feature = "verif-hooks")]
+impl Token {
+    /// Verification hook (read-only): the position of the token.
+    pub fn verif_position(&self) -> &Position {
+        &self.position
+    }
+}
+
+#[cfg(feature = "verif-hooks")]
+impl Trivia {
+    /// Verification hook (read-only): the position of the trivia.
+    pub fn verif_position(&self) -> &Position {
+        &self.position
+    }
+}
+
 #[cfg(test)]
 mod test {
     use super::*;
